@@ -157,16 +157,14 @@ _CACHE = {}
 
 
 def regions(model):
-    key = id(model)
-    if key in _CACHE:
-        return _CACHE[key]
+    if "_regions_cache" in model.__dict__:
+        return model.__dict__["_regions_cache"]
     summ = Summaries(model)
     wrappers = find_wrappers(model)
     out = {}
     for role, fi in wrappers.items():
         out[role] = analyse_region(model, role, fi, summ)
-    _CACHE.clear()
-    _CACHE[key] = out
+    model.__dict__["_regions_cache"] = out
     return out
 
 
